@@ -121,9 +121,13 @@ def check(ctx, text, opts, meta, alone):
             again = sqlparse.format(out, **dict(opts))
         except Exception:
             again = None
+        # whitespace at statement boundaries is not preserved by format()
+        # (each statement is right-stripped, a whitespace-only tail is
+        # dropped): judge the statement texts, and the whole text modulo
+        # leading/trailing whitespace for a single statement
         same = again is not None and (
-            again == out if len(sqlparse.split(out)) <= 1
-            else sqlparse.split(again) == sqlparse.split(out))
+            sqlparse.split(again) == sqlparse.split(out)) and (
+            len(sqlparse.split(out)) > 1 or again.strip() == out.strip())
         if not same:
             i = fmtutil.first_diff(out, again or '')
             rec.violation('not-idempotent', dict(case, output=out),
